@@ -804,11 +804,17 @@ func (g *gen) mutMultimap(v reflect.Value, t *Type, nav []NavStep, depth int, st
 		if g.r.Chance(1, 4) {
 			if kt.Kind.Primitive() {
 				g.do(nav, &Call{M: "SetKey", Args: []any{i, g.genPrim(kt, call(v, "Key", iv(i))[0])}, Idx: true})
+			} else if kt.Kind == KStruct && kt.Def != nil && kt.Def.Dict != "" {
+				g.setDictElem(v, "SetKey", i, kt, nav, depth, stack)
 			} else {
 				g.mutNode(call(v, "Key", iv(i))[0], kt, with(nav, "Key", i), depth+1, stack)
 			}
 		}
 		if g.r.Chance(3, 4) {
+			if vt.Kind == KStruct && vt.Def != nil && vt.Def.Dict != "" {
+				g.setDictElem(v, "SetValue", i, vt, nav, depth, stack)
+				continue
+			}
 			if vt.Kind.Primitive() {
 				c := &Call{M: "SetValue", Args: []any{i, g.genPrim(vt, call(v, "Value", iv(i))[0])}, Idx: true}
 				if vt.Kind == KFloat64 {
@@ -820,6 +826,33 @@ func (g *gen) mutMultimap(v reflect.Value, t *Type, nav []NavStep, depth int, st
 			}
 		}
 	}
+}
+
+// setDictElem assigns a dictionary-struct key / value of a multimap through SetKey / SetValue
+// (dictionary structs are replaced as a whole): a frozen shared object (new or pooled) or a fresh
+// unfrozen one - both over whatever the element holds (a shared value, or an owned copy).
+func (g *gen) setDictElem(v reflect.Value, setter string, i int, t *Type, nav []NavStep, depth int, stack map[*Def]int) {
+	m := v.MethodByName(setter)
+	if !m.IsValid() || m.Type().NumIn() != 2 || m.Type().In(1).Kind() != reflect.Ptr {
+		return
+	}
+	pt := m.Type().In(1)
+	canFreeze := has(reflect.New(pt.Elem()), "Freeze")
+	pool := g.st.Pool[t.Def.Name]
+	var spec *ObjSpec
+	switch x := g.r.Intn(10); {
+	case x < 4 || !canFreeze || !g.main || g.st.Cfg.NoFrozen:
+		spec = g.newObject(t, pt, false, depth, stack)
+		g.stat("mm-dict-elem-fresh")
+	case x < 7 && len(pool) > 0:
+		spec = pool[g.r.Intn(len(pool))]
+		g.stat("mm-dict-elem-frozen-pooled")
+	default:
+		spec = g.newObject(t, pt, true, depth, stack)
+		g.st.Pool[t.Def.Name] = append(pool, spec)
+		g.stat("mm-dict-elem-frozen-new")
+	}
+	g.do(nav, &Call{M: setter, Args: []any{i, spec}, Idx: true})
 }
 
 // ---------------------------------------------------------------------------------------
